@@ -41,11 +41,15 @@ def cases(draw):
     eps = draw(st.one_of(gen.eps_values(recipe["n"], m, cheap=False).map(lambda e: max(e, 2.0 ** (1 - m))),
                          st.sampled_from([1e-4, 1e-3, 0.01, 0.05])))
     params = {"r": draw(gen.r_values), "eps": eps, "itersLimit": draw(iters)}
-    how = draw(st.sampled_from(["ctor", "ctor", "assign", "rebound", "assign+rebound"]))
+    how = draw(st.sampled_from(["ctor", "ctor", "assign", "rebound", "assign+rebound", "zoom", "assign+zoom"]))
     if "assign" in how:
         params["assign"] = True
     if "rebound" in how:
         params["rebound"] = True      # solver.evolvent.SetBounds(the same box): the grid must stay the configured one
+    if "zoom" in how:
+        # the solver is re-targeted to a sub-box (fractional bounds) through its own evolvent before the first
+        # iteration: the grid is that of the configured density on the sub-box
+        params["zoom"] = True
     dt = draw(st.sampled_from(["int", "int", "np64", "np32"]))
     if dt != "int":
         recipe = dict(recipe, density_type=dt)      # the density given as a numpy integer scalar
@@ -93,6 +97,8 @@ def body(case):
             if "outside of interval" not in str(e):
                 raise
     lo, hi = recipe["lower"], recipe["upper"]
+    if case["params"].get("zoom"):
+        lo, hi = ([a + 0.25 * (b - a) for a, b in zip(lo, hi)], [b - 0.125 * (b - a) for a, b in zip(lo, hi)])
     T = float(1 << m)
     points = [(None, y, None) for y in asked] if asked else run.problem.log
     for k, (_, y, _) in enumerate(points):
@@ -106,6 +112,7 @@ def body(case):
     return (m != 10 and n >= 5), ["m=%d" % m, "N=%d" % recipe["n"], "drive=" + case["drive"],
                                   "density-as=" + recipe.get("density_type", "int"),
                                   "startPoint" if case["params"].get("startPoint") else "no-startPoint",
+                                  "re-targeted-to-sub-box" if case["params"].get("zoom") else "box-as-constructed",
                                   "int-typed-bounds" if (recipe.get("style") or {}).get("bounds") else "float-bounds"]
 
 
